@@ -109,7 +109,7 @@ def _accessor(name, p, n):
                  'range': f'implies({p + n} <= 8 * len(self), 0 <= result and result < {2 ** n})',
                  # the same value read off the 48-bit header word (the form clients of the header layout use)
                  'word': f'implies(len(self) >= 6, result == low(shr(be(sl(self, 0, 6)), {48 - p - n}), {n}))'},
-        hints=[f'bits_prefix(self, 6, {p}, {n})'],
+        hints=[f'bits_prefix(self, 6, {p}, {n})', f'bits_range(self, {p}, {n})'],
         may_raise={'ValueError': f'{p + n} > 8 * len(self)'},
         modifies=[],
         native={'gen': _gen_pkt, 'build': _build_pkt,
@@ -124,6 +124,64 @@ IN_RANGE = ('0 <= version_number and version_number <= 7 and 0 <= type and type 
             'and secondary_header_flag <= 1 and 0 <= apid and apid <= 2047 and 0 <= sequence_flags and '
             'sequence_flags <= 3 and 0 <= sequence_count and sequence_count <= 16383 and 1 <= len(data) and '
             'len(data) <= 65536')
+
+def _gen_streams(rng, tier, variant):
+    """streams of 0..4 packets (data lengths incl. 1, 255..257, 512, 1024) with prefix k in {0,1,4,9}, delivered as
+    bytes / file / socket with read sizes {None,1,2,3,5,6,7,8,13,64,4096} and random fragmentations; every stream also
+    cut at every byte offset (producer dying there) for short streams; plus arbitrary byte strings of 0..40 bytes"""
+    from contracts._gen import make_packet
+    kind = variant
+    rsizes = [None, 1, 2, 3, 5, 6, 7, 8, 13, 64, 4096] + ([-1] if kind == 'file' else [])
+    nstreams = 150 if tier == "quick" else 1500
+    for si in range(nstreams):
+        k = rng.choice([0, 0, 1, 4, 9])
+        n = rng.randint(0, 4)
+        pk = [make_packet(rng, dlen=rng.choice([1, 2, 3, 8, 20, 256, 512]) if si % 3 else None) for _ in range(n)]
+        T = b''.join(bytes(rng.getrandbits(8) for _ in range(k)) + p for p in pk)
+        cuts = [len(T)] + ([c for c in range(len(T))] if len(T) <= 60 else [rng.randint(0, len(T)) for _ in range(12)])
+        for cut in cuts:
+            r = rng.choice(rsizes)
+            frag = [] if rng.random() < 0.4 else [rng.randint(1, 9) for _ in range(rng.randint(1, 4))]
+            yield {'kind': kind, 'T': T[:cut].hex(), 'k': k, 'r': r, 'frag': frag}
+    for _ in range(60 if tier == 'quick' else 600):
+        ln = rng.randint(0, 40)
+        yield {'kind': kind, 'T': bytes(rng.getrandbits(8) for _ in range(ln)).hex(), 'k': rng.choice([0, 2]),
+               'r': rng.choice(rsizes), 'frag': []}
+    if tier == 'thorough':
+        # beyond the 20 MB buffer-trim threshold (twice)
+        big = b''.join(make_packet(rng, dlen=65536) for _ in range(650))
+        yield {'kind': kind, 'T': None, 'big': 650, 'k': 0, 'r': 1 << 20 if kind != 'bytes' else None, 'frag': []}
+
+
+def _gen_wellformed(rng, tier, variant):
+    """well-formed streams of N = 0..5 packets with prefix k in {0, 1, 4, 9}; N stated correctly"""
+    from contracts._gen import make_packet
+    for _ in range(150 if tier == 'quick' else 3000):
+        k = rng.choice([0, 0, 1, 4, 9])
+        n = rng.randint(0, 5)
+        T = b''.join(bytes(rng.getrandbits(8) for _ in range(k)) + make_packet(rng) for _ in range(n))
+        yield {'T': T.hex(), 'k': k, 'N': n}
+
+
+def _build_wellformed(r):
+    return {'args': {'binary_data': bytes.fromhex(r['T']), 'skip_header_bytes': r['k'], 'N': r['N']}}
+
+
+def _build_stream(r):
+    def make():
+        from contracts._gen import build_source, make_packet
+        import random
+        if r.get('T') is None:
+            rr = random.Random(5)
+            T = b''.join(make_packet(rr, dlen=65536 if i % 7 else 3) for i in range(r['big']))
+        else:
+            T = bytes.fromhex(r['T'])
+        a = {'binary_data': build_source(r['kind'], T, r['frag']), 'skip_header_bytes': r['k'],
+             'show_progress': False}
+        a['buffer_read_size_bytes'] = r['r']
+        return a
+    return {'make': make, 'cap': 2000}
+
 
 CONTRACTS = [
     # ----------------------------------------------------------------------------------------------------------
@@ -141,6 +199,7 @@ CONTRACTS = [
         },
         # inside the buffer nothing may be raised; past the end CPython may reject the negative shift count
         may_raise={'ValueError': 'start_bit + nbits > 8 * len(data)'},
+        reveal=['bits'],
         modifies=[],
         native={'gen': _gen_bits, 'build': _build_extract},
     ),
@@ -177,6 +236,7 @@ CONTRACTS = [
             'nonneg': ('nbits >= 0', ['C14']),
         },
         raises={'ValueError': ('nbits < 0 or self.pos + nbits > 8 * len(self)')},
+        reveal=['bits'],
         requires_for={'C03': ['nbits >= 0'], 'C04': ['nbits >= 0'], 'C07': ['nbits >= 0']},
         modifies=['self.pos'],
         native={'gen': _gen_bits, 'build': _build_read},
@@ -230,6 +290,107 @@ CONTRACTS = [
         requires=[IN_RANGE],
         ensures={},
         modifies=[],
+        native={'gen': _gen_create, 'build': _build_create},
+    ),
+    # ----------------------------------------------------------------------------------------------------------
+    # the framer: one contract, verified once per source kind (S10); E1 is the assumed contract on the readers
+    Contract(
+        target='packets.ccsds_generator',
+        props=['C02', 'C10', 'C13', 'C19', 'C11', 'C01'],
+        params={'binary_data': 'bytes', 'buffer_read_size_bytes': ('opt', 'int'), 'show_progress': 'bool',
+                'skip_header_bytes': 'int'},
+        ghost={'yield_type': 'bytes', 'defs': {'k': 'skip_header_bytes', 'j': 'len(out)'}},
+        variants={
+            'file': {'params': {'binary_data': ('source', 'file')},
+                     'requires': ['is_none(buffer_read_size_bytes) or buffer_read_size_bytes != 0'],
+                     'ghost_defs': {'T': 'src_T(binary_data)', 'Rr': 'src_R(binary_data)'}},
+            'socket': {'params': {'binary_data': ('source', 'socket')},
+                       'requires': ['is_none(buffer_read_size_bytes) or buffer_read_size_bytes >= 1'],
+                       'ghost_defs': {'T': 'src_T(binary_data)', 'Rr': 'src_R(binary_data)'}},
+            'bytes': {'params': {'binary_data': 'bytes'},
+                      'ghost_defs': {'T': 'binary_data', 'Rr': 'len(binary_data)'}},
+        },
+        requires=['skip_header_bytes >= 0', 'not show_progress'],
+        hints=['fb_zero(T, k)'],
+        loops={
+            ('', 0): LoopSpec(
+                invariants={
+                    'cursor_in_buffer': '0 <= current_pos and current_pos <= len(read_buffer)',
+                    'window': ('0 <= Rr - len(read_buffer) and Rr <= len(T) and '
+                               'read_buffer == sl(T, Rr - len(read_buffer), Rr)'),
+                    'at_boundary': '(Rr - len(read_buffer)) + current_pos == fb(T, k, len(out))',
+                    'bytes_parsed': 'n_bytes_parsed == fb(T, k, len(out))',
+                    'packets_parsed': 'n_packets_parsed == len(out)',
+                    'yielded': ('forall(lambda i: at(out, i) == sl(T, fb(T, k, i) + k, fb(T, k, i + 1)) and '
+                                'fb(T, k, i + 1) <= len(T) and fb(T, k, i) + k + 6 <= len(T), 0, len(out))'),
+                    'total_known': 'is_none(total_length_bytes) or total_length_bytes == len(T)',
+                },
+                decreases='len(T) - fb(T, k, len(out))',
+                havoc_yielded=True, havoc_ghost=['binary_data.R'],
+                hints=['fb_step(T, k, len(out))', 'fb(T, k, len(out)) >= 0',
+                       # the 16-bit length field read from the buffered header is the one at that offset of the stream
+                       'bits_slice(T, fb(T, k, len(out)) + k, fb(T, k, len(out)) + k + 6, 32, 16)',
+                       # ... and it is the length field of the yielded packet itself
+                       'bits_slice(T, fb(T, k, len(out)) + k, fb(T, k, len(out) + 1), 32, 16)'],
+            ),
+            ('', 1): LoopSpec(
+                invariants={
+                    'window': ('0 <= Rr - len(read_buffer) and Rr <= len(T) and '
+                               'read_buffer == sl(T, Rr - len(read_buffer), Rr)'),
+                    'at_boundary': '(Rr - len(read_buffer)) + current_pos == fb(T, k, len(out))',
+                    'cursor_in_buffer': '0 <= current_pos and current_pos <= len(read_buffer)',
+                },
+                decreases='len(T) - Rr', havoc_ghost=['binary_data.R'],
+            ),
+            ('', 2): LoopSpec(
+                invariants={
+                    'window': ('0 <= Rr - len(read_buffer) and Rr <= len(T) and '
+                               'read_buffer == sl(T, Rr - len(read_buffer), Rr)'),
+                    'at_boundary': '(Rr - len(read_buffer)) + current_pos == fb(T, k, len(out)) + k',
+                    'cursor_in_buffer': '0 <= current_pos and current_pos <= len(read_buffer)',
+                },
+                decreases='len(T) - Rr', havoc_ghost=['binary_data.R'],
+            ),
+        },
+        yields={
+            # C02: byte-identical, in order;  C10: complete, consecutive
+            'value': 'item == sl(T, fb(T, k, len(out)) + k, fb(T, k, len(out) + 1))',
+            'complete': 'len(item) == 7 + bits(item, 32, 16)',
+            'inside': 'fb(T, k, len(out) + 1) <= len(T)',
+        },
+        final={
+            # C10: the unconsumed remainder is shorter than one complete record
+            'remainder': 'not complete(T, k, len(out))',
+            # every yielded item is a consecutive, complete slice of the input
+            'consecutive': ('forall(lambda i: at(out, i) == sl(T, fb(T, k, i) + k, fb(T, k, i + 1)) and '
+                            'fb(T, k, i + 1) <= len(T), 0, len(out))'),
+        },
+        raises={},
+        modifies=[],
+        native={'gen': _gen_streams, 'build': _build_stream},
+    ),
+    Contract(
+        target='ghost.c02_exact',
+        props=['C02', 'C13'],
+        params={'binary_data': 'bytes', 'skip_header_bytes': 'int', 'N': 'int'},
+        returns='any',
+        requires=['skip_header_bytes >= 0', 'N >= 0',
+                  # well-formed stream of N records
+                  'forall(lambda i: complete(binary_data, skip_header_bytes, i), 0, N)',
+                  'fb(binary_data, skip_header_bytes, N) == len(binary_data)'],
+        hints=['fb_step(binary_data, skip_header_bytes, N)',
+               'bits_range(binary_data, 8 * (fb(binary_data, skip_header_bytes, N) + skip_header_bytes) + 32, 16)'],
+        ensures={}, modifies=[],
+        native={'gen': _gen_wellformed, 'build': _build_wellformed},
+    ),
+    Contract(
+        target='ghost.c13_reframe',
+        props=['C13'],
+        params={'data': 'bytes', 'version_number': 'int', 'type': 'int', 'secondary_header_flag': 'int',
+                'apid': 'int', 'sequence_flags': 'int', 'sequence_count': 'int'},
+        returns='any',
+        requires=[IN_RANGE],
+        ensures={}, modifies=[],
         native={'gen': _gen_create, 'build': _build_create},
     ),
 ]
